@@ -102,6 +102,19 @@ class MulticastOutgoingQueue:
                 if answer not in records
             }
 
+    def async_remove_superseded(self, names: Set[str], current: Set[DNSRecord]) -> None:
+        """Remove records owned by one of the names (lower case) unless they are among the current ones."""
+        for pending in self.queue:
+            pending.answers = {
+                answer: {
+                    additional
+                    for additional in additionals
+                    if additional.key not in names or additional in current
+                }
+                for answer, additionals in pending.answers.items()
+                if answer.key not in names or answer in current
+            }
+
     def async_ready(self) -> None:
         """Process anything in the queue that is ready."""
         zc = self.zc
